@@ -59,7 +59,7 @@ func decodeAlphabet(ctx *core.Ctx) []decodeCase {
 	var cases []decodeCase
 	add := func(b []byte) { cases = append(cases, decodeCase{Hex(append([]byte{}, b...))}) }
 	// (a) all small y x sign
-	ny := tierN(ctx, 1<<14, 1<<16)
+	ny := sz(ctx, 1<<14, 1<<16, 1<<18)
 	for y := 0; y < ny; y++ {
 		for s := 0; s < 2; s++ {
 			var b [32]byte
